@@ -61,4 +61,24 @@ theorem cvtToFuzzy_direction_default (sqrt : Rat → Rat) (tt ft : Option Num) (
   | [] => simp [exec]
   | _ :: _ :: _ => simp [exec]
 
+/-- **a defaulted threshold is a threshold**: whenever the thresholds `CvtToFuzzy` ends up with - given, or taken from the field's minimum and maximum
+according to the direction - coincide, the command is refused with `InvalidThresholds`, exactly as for two equal thresholds written out; in particular
+a field whose valid cells all hold one value cannot be converted without thresholds -/
+theorem cvtToFuzzy_equal_after_defaults (a : Arr) (tt ft : Option Num) (h2l : Bool) (mn mx : Rat)
+    (hmn : minL a.valid = some mn) (hmx : maxL a.valid = some mx)
+    (heq : numOr tt (if h2l then mn else mx) = numOr ft (if h2l then mx else mn)) :
+    exec.go a tt ft h2l = eMp "InvalidThresholds" .cmd := by
+  unfold exec.go
+  simp only [hmn, hmx]
+  simp [heq]
+
+theorem cvtToFuzzy_constant_field_rejected (a : Arr) (h2l : Bool) (v : Rat) (hmn : minL a.valid = some v) (hmx : maxL a.valid = some v) :
+    exec.go a none none h2l = eMp "InvalidThresholds" .cmd :=
+  cvtToFuzzy_equal_after_defaults a none none h2l v v hmn hmx (by cases h2l <;> simp [numOr])
+
+/-- e.g. `TrueThreshold = 0` on data whose minimum is 0 (the false threshold defaults to the minimum) -/
+theorem cvtToFuzzy_given_equals_default (a : Arr) (t : Num) (mn mx : Rat) (hmn : minL a.valid = some mn) (hmx : maxL a.valid = some mx) (ht : t.val = mn) :
+    exec.go a (some t) none false = eMp "InvalidThresholds" .cmd :=
+  cvtToFuzzy_equal_after_defaults a (some t) none false mn mx hmn hmx (by simp [numOr, ht])
+
 end MPilot.C08D
